@@ -1108,6 +1108,8 @@ class mulgrid(object):
             self.connectionlist[-1].node = self.connection_nodes(con.column)
             for col in self.connectionlist[-1].column:
                 col.connection.add(self.connectionlist[-1])
+            con.column[0].neighbour.add(con.column[1])
+            con.column[1].neighbour.add(con.column[0])
 
     def connection_nodes(self, cols):
         """Identifies nodes on the connection between a pair of two columns.
@@ -1129,6 +1131,8 @@ class mulgrid(object):
         """Deletes a connection from the geometry."""
         con = self.connection[colnames]
         for col in con.column: col.connection.remove(con)
+        con.column[0].neighbour.discard(con.column[1])
+        con.column[1].neighbour.discard(con.column[0])
         del self.connection[colnames]
         self.connectionlist.remove(con)
 
